@@ -7,6 +7,7 @@
   hypothesis, so the trusted base never contains an analytic fact about libm.
 -/
 import Mathlib.Algebra.Field.Defs
+import TfelVerif.Common.Attr
 
 namespace TfelVerif
 
